@@ -10,6 +10,12 @@ NOTE = ("Trusted: Lean 4.33 kernel; axioms propext/Classical.choice/Quot.sound o
         "-O2 build (thorough: also -O0 and -march=native, all alignments). Constants and README tables are regenerated from "
         "/repo on every run (tools/gen.py). Clauses not yet carried by a theorem are listed in the evidence under not_yet_proved.")
 CLAIMED = {
+ "C15": ("PARTIAL. Theorems: the regenerated list of writable statics of the library is empty; the only caller-supplied "
+         "possibly-uninitialised structure the encoders read (varintFORMeta) does not influence the result unless it claims to be "
+         "an analysis of the same count, and the adaptive layer's zeroed struct never does. The correspondence runs every "
+         "operation in three orders, with stack and heap painted with three residues, in two builds, and under valgrind "
+         "memcheck, and requires the model's (pure) result every time",
+         "Lean 4 proof (statics list, residue independence of the modelled site) + perturbed differential correspondence + memcheck (partial)"),
  "C18": ("Theorems for the bitmap object under EVERY refusal pattern (any subset of its allocation requests, over any "
          "history): Add/Remove are atomic (applied and reported, or the set is untouched and false returned), the C08 invariant "
          "survives, set operations return NULL or exactly the union with all iterated members, Create/Clone return NULL or the "
